@@ -154,7 +154,7 @@ def cargo_check(d, mods, timeout=1500):
         m = re.match(r"^(?:src/|/)(\S+?):\d+:\d+: error(?:\[(E\d+)\])?: (.*)$", ln)
         if m:
             path = m.group(1)
-            mod = path.split("/")[0] if not ln.startswith("/") else next((x for x in path.split("/") if re.match(r"^[abcdwqs]\d+", x)), path)
+            mod = path.split("/")[0] if not ln.startswith("/") else next((x for x in path.split("/") if re.match(r"^[abcdewqs]\d+", x)), path)
             errs.append((mod, m.group(2) or "syntax", m.group(3)[:300]))
         elif ln.startswith("error") and "could not compile" not in ln and "aborting" not in ln:
             errs.append(("?", "error", ln[:300]))
@@ -392,6 +392,12 @@ def gen_docs(rng, tier):
     # conversion) x include (collisions in the including file, in the included file, in both along a chain, in a diamond)
     for i, (name, cd) in enumerate(bldgen.collision_include_docs()):
         docs.append(dict(id="c%d" % i, kind="thrift", doc=cd, files=cd.texts(), entry="main.thrift", directed=name))
+    # directed: split-mode file names -- items of every kind whose names collide ignoring case together with items literally named like
+    # the suffixed forms, in three declaration orders; always compiled in split mode (two configurations) and once in single-file mode
+    for i, (name, sd) in enumerate(bldgen.split_name_docs()):
+        docs.append(dict(id="e%d" % i, kind="thrift", doc=sd, files=sd.texts(), entry="main.thrift", directed=name,
+                         force_cfgs=[dict(mode="split", keep=0, cc=1, iu=0), dict(mode="split", keep=1, cc=0, iu=i % 2),
+                                     dict(mode="single", keep=0, cc=1 - i % 2, iu=0)]))
     # directed (raw text, no AST: compiled and derive-checked, not part of the naming correspondences): pilota annotations on every
     # position x the other features of the same item
     for i, (name, files, entry) in enumerate(bldgen.annotation_docs()):
@@ -580,6 +586,8 @@ def run(chk, replay=None):
     jobs = []
     for di, d in enumerate(docs):
         cfgs = CONFIGS if per_doc == 16 else [CONFIGS[(di * 5 + 3 * j * 3 + j) % 16] for j in range(per_doc)]
+        if d.get("force_cfgs") and per_doc != 16:
+            cfgs = d["force_cfgs"]
         seen = []
         for c in cfgs:
             if d["kind"] == "pb":
